@@ -142,9 +142,10 @@ def pentryT (e : PEntry) : Term := tag "p" [addrT e.addr, nat e.mask, nat e.lo, 
 
 def elemOf? (k : SetKind) (t : Term) : Option Elem :=
   match k with
-  | .prefix => (pentryOf? t).map .pfx
+  | .prefix => (match t with | .atom "raw" => some .raw | t => (pentryOf? t).map .pfx)
   | .neighbor =>
       (match t with
+       | .atom "raw" => some .raw
        | .list [.atom "n", a, m] => do pure (.nbr (← addrOf? a) (← u8Of? m))
        | _ => none)
   | .aspath =>
